@@ -1,8 +1,17 @@
 ------------------------------- MODULE C12_mc -------------------------------
 (* Model-checking instance of TMMempool for C12 (all C12_*.cfg use this module). *)
 EXTENDS TMMempool
-\* byte length of each tx key: a, b -> 1 byte; c -> 2 bytes; d -> 3 bytes
-MCTxSize == [t \in Txs |-> IF t = "c" THEN 2 ELSE IF t = "d" THEN 3 ELSE 1]
+\* byte length of each tx key: a, b -> 1 byte; c -> 2 bytes; d -> 3 bytes; p..w: the lengths around
+\* the varint steps of the protobuf length prefix (2^7, 2^14) -- 128 and 16384..16511 are the ones
+\* a `>` / `>=` slip in a varint loop gets wrong
+MCTxSize == [t \in Txs |->
+               CASE t = "c" -> 2 [] t = "d" -> 3
+                 [] t = "p" -> 127 [] t = "q" -> 128 [] t = "r" -> 129
+                 [] t = "s" -> 16383 [] t = "t" -> 16384 [] t = "u" -> 16385
+                 [] t = "v" -> 16511 [] t = "w" -> 16512
+                 [] OTHER -> 1]
+MCTight   == -3..2
+MCNoTight == {}
 \* reap argument alphabets (TLC cfg files cannot hold negative numbers)
 MCReapNs == {-1, 0, 1, 2}
 MCReapBs == {-1, 0, 3, 6, 7}      \* proto sizes: 1 byte -> 3, 2 bytes -> 4, 3 bytes -> 5
